@@ -159,15 +159,23 @@ def leaf(draw, jobs):
 def filters(jobs, depth=3):
     lf = leaf(jobs)
 
+    def shared(t):
+        # the same condition repeated in several branches, each time next to another condition
+        # (a common way to write "kind x with b 1 or 2"): {"$or": [{L, A}, {L, B}]} etc.
+        L, A, B, how = t
+        b1, b2 = _merge((L, A)), _merge((json.loads(json.dumps(L)), B))
+        return [{"$or": [b1, b2]}, {"$and": [b1, {"$not": b2}]}, {"$or": [b1, {"$not": b2}]}, {"$not": {"$or": [b2, b1]}}][how]
+
     def extend(children):
         return st.one_of(
+            st.tuples(lf, children, children, st.integers(0, 3)).map(shared),
             st.lists(children, min_size=1, max_size=3).map(lambda fs: {"$and": fs}),
             st.lists(children, min_size=1, max_size=3).map(lambda fs: {"$or": fs}),
             children.map(lambda f: {"$not": f}),
             st.tuples(children, children).map(_merge),
         )
 
-    return st.recursive(lf, extend, max_leaves=5)
+    return st.recursive(lf, extend, max_leaves=6)
 
 
 def _merge(pair):
